@@ -20,7 +20,7 @@ func TestC04(t *testing.T) {
 			n, sb, cl := s.Shape()
 			o := evid.Outcome{Classes: cl, Summary: summary(s, tr)}
 			o.NonTrivial = uint64(n) > s.Q && (sb || !s.alwaysReady())
-			if tr.Deadlock != "" {
+			if tr.Deadlock != "" && tr.Early == "" {
 				o.Skip = "run did not complete (belongs to C12)"
 				return o
 			}
